@@ -49,6 +49,71 @@ TARGETS = {
              args=["N", "t", "S", "j"], params={"N": "N", "t": "t", "S": "S", "j": "j"}, atoms={},
              result="m", mentions=["S"], ifexp_test="np.isfinite(N)", ifexp_else="t"),
     ],
+    # whole-function skeletons: EVERY statement of the function must be one of the listed exact texts, an assignment to
+    # a listed name (tied elsewhere), or a boolean-mask assignment `array[<mask>] = <0 | 1 | np.inf>`, which is
+    # translated entry-wise.  Anything else (an extra guard, a reordered or missing line) is a refusal.
+    "nnm_masks": [
+        dict(name="alpha", kind="skeleton", file="shangrla/core/NonnegMean.py", func="NonnegMean.alpha_mart",
+             skeleton=[("text", "N = self.N"), ("text", "t = self.t"), ("text", "u = self.u"),
+                       ("text", "atol = kwargs.get('atol', 2 * np.finfo(float).eps)"),
+                       ("text", "rtol = kwargs.get('rtol', 10 ** (-6))"),
+                       ("text", "_S, Stot, _j, m = self.sjm(N, t, x)"), ("text", "x = np.array(x)"),
+                       ("with", "np.errstate(divide='ignore', invalid='ignore', over='ignore')"),
+                       ("expr", "etaj", "clamp", ["u", "est", "m"], {"self.estim(x)": "est"}),
+                       ("assign", "factors"), ("text", "terms = np.cumprod(factors)"),
+                       ("text", "terms[np.cumsum(factors == 0) > 0] = 0"), ("endwith",),
+                       ("masks", "terms", "override", ["u", "m"]),
+                       ("text", "terms[-1] = np.inf if Stot > N * t else terms[-1]"),
+                       ("text", "return (min(1, 1 / np.max(terms)), np.minimum(1, 1 / terms))")]),
+        dict(name="betting", kind="skeleton", file="shangrla/core/NonnegMean.py", func="NonnegMean.betting_mart",
+             skeleton=[("text", "N = self.N"), ("text", "t = self.t"), ("text", "u = self.u"),
+                       ("text", "atol = kwargs.get('atol', 2 * np.finfo(float).eps)"),
+                       ("text", "rtol = kwargs.get('rtol', 10 ** (-6))"),
+                       ("text", "_S, Stot, _j, m = self.sjm(N, t, x)"), ("text", "x = np.array(x)"),
+                       ("with", "np.errstate(divide='ignore', invalid='ignore', over='ignore')"),
+                       ("text", "lam = self.bet(x)"),
+                       ("assign", "factors"), ("text", "terms = np.cumprod(factors)"),
+                       ("text", "terms[np.cumsum(factors == 0) > 0] = 0"), ("endwith",),
+                       ("masks", "terms", "override", ["u", "m"]),
+                       ("text", "terms[-1] = np.inf if Stot > N * t else terms[-1]"),
+                       ("text", "return (min(1, 1 / np.max(terms)), np.minimum(1, 1 / terms))")]),
+        dict(name="kk", kind="skeleton", file="shangrla/core/NonnegMean.py", func="NonnegMean.kaplan_kolmogorov",
+             skeleton=[("text", "N = self.N"), ("text", "t = self.t"), ("text", "g = getattr(self, 'g', 0)"),
+                       ("text", "random_order = getattr(self, 'random_order', True)"), ("text", "x = np.array(x)"),
+                       ("text", "assert all(x >= 0), 'Negative value in a nonnegative population!'"),
+                       ("text", "assert len(x) <= N, 'Sample size is larger than the population!'"),
+                       ("text", "assert N > 0, 'Population size not positive!'"),
+                       ("text", "assert N == int(N), 'Non-integer population size!'"),
+                       ("text", "_S, _Stot, _j, m = self.sjm(N, t + g, x + g)"),
+                       ("with", "np.errstate(divide='ignore', invalid='ignore', over='ignore')"),
+                       ("assign", "ratio"), ("masks", "ratio", "ratio_fix", ["x", "g", "m"]),
+                       ("text", "terms = np.cumprod(ratio)"),
+                       ("text", "terms[np.cumsum(ratio == 0) > 0] = 0"), ("endwith",),
+                       ("masks", "terms", "override", ["x", "g", "m"]),
+                       ("text", "p = min(1 / np.max(terms) if random_order else 1 / terms[-1], 1)"),
+                       ("text", "return (p, np.minimum(1 / terms, 1))")]),
+        dict(name="km", kind="skeleton", file="shangrla/core/NonnegMean.py", func="NonnegMean.kaplan_markov",
+             skeleton=[("text", "t = self.t"), ("text", "g = getattr(self, 'g', 0)"),
+                       ("text", "random_order = getattr(self, 'random_order', True)"),
+                       ("raise_guard",),
+                       ("assign", "factors"), ("text", "p_history = np.cumprod(factors)"),
+                       ("text", "p_history[np.cumsum(np.isinf(factors)) > 0] = np.inf"),
+                       ("text", "return (np.min([1, np.min(p_history) if random_order else p_history[-1]]), np.minimum(p_history, 1))")]),
+        dict(name="kw", kind="skeleton", file="shangrla/core/NonnegMean.py", func="NonnegMean.kaplan_wald",
+             skeleton=[("text", "g = getattr(self, 'g', 0)"), ("text", "random_order = getattr(self, 'random_order', True)"),
+                       ("text", "t = self.t"), ("raise_guard",), ("raise_guard",),
+                       ("assign", "factors"), ("text", "p_history = np.cumprod(factors)"),
+                       ("text", "p_history[np.cumsum(factors == 0) > 0] = 0"),
+                       ("text", "return (np.min([1, 1 / np.max(p_history) if random_order else 1 / p_history[-1]]), np.minimum(1 / p_history, 1))")]),
+        dict(name="sprt", kind="skeleton", file="shangrla/core/NonnegMean.py", func="NonnegMean.wald_sprt",
+             skeleton=[("text", "u = self.u"), ("text", "N = self.N"), ("text", "t = self.t"),
+                       ("text", "eta = getattr(self, 'eta', u * (1 - np.finfo(float).eps))"),
+                       ("text", "random_order = getattr(self, 'random_order', True)"),
+                       ("raise_guard",), ("raise_guard",),
+                       ("text", "sprt = NonnegMean(test=NonnegMean.alpha_mart, estim=NonnegMean.fixed_alternative_mean, u=u, N=N, t=t, eta=eta)"),
+                       ("text", "p, p_history = sprt.alpha_mart(x)"),
+                       ("text", "return (p if random_order else p_history[-1], p_history)")]),
+    ],
     "audit": [
         dict(name="overstatement_assorter", file="shangrla/core/Audit.py", func="Assertion.overstatement_assorter",
              args=["omega", "ua", "v"], params={},
@@ -207,11 +272,130 @@ def translate_block(target, fn):
     return f"(* {target['file']}: {target['func']} ({want} = ...) *)\nDefinition gen_{target['name']} ({args} : Q) : Q :=\n  {body}.\n"
 
 
+def flatten(stmts):
+    """statements in source order; a `with` block contributes ("with", <items text>), its body, ("endwith",)"""
+    out = []
+    for st in stmts:
+        if isinstance(st, ast.Expr) and isinstance(st.value, ast.Constant) and isinstance(st.value.value, str):
+            continue  # docstring
+        if isinstance(st, ast.With):
+            out.append(("with", ", ".join(ast.unparse(i) for i in st.items)))
+            out.extend(flatten(st.body))
+            out.append(("endwith",))
+        else:
+            out.append(("stmt", st))
+    return out
+
+
+def mask_expr(node, env, array):
+    """a numpy boolean mask, read entry-wise: comparisons of arithmetic expressions, np.isclose, | and &"""
+    src = ast.unparse(node)
+    if isinstance(node, ast.BinOp) and isinstance(node.op, (ast.BitOr, ast.BitAnd)):
+        f = "orb" if isinstance(node.op, ast.BitOr) else "andb"
+        return f"({f} {mask_expr(node.left, env, array)} {mask_expr(node.right, env, array)})"
+    if isinstance(node, ast.Compare) and len(node.ops) == 1:
+        l, r = expr(node.left, env, {}), expr(node.comparators[0], env, {})
+        op = type(node.ops[0])
+        table = {ast.Lt: f"(Qlt_bool {l} {r})", ast.Gt: f"(Qlt_bool {r} {l})", ast.LtE: f"(Qle_bool {l} {r})",
+                 ast.GtE: f"(Qle_bool {r} {l})", ast.Eq: f"(Qeq_bool {l} {r})"}
+        if op in table:
+            return table[op]
+    if isinstance(node, ast.Call) and ast.unparse(node.func) == "np.isclose" and len(node.args) == 2:
+        kws = {k.arg: ast.unparse(k.value) for k in node.keywords}
+        if not set(kws) <= {"atol", "rtol"} or kws.get("atol", "atol") != "atol" or kws.get("rtol", "rtol") != "rtol":
+            raise TranslationError(f"unsupported tolerances in {src}")
+        at = "atol_np" if "atol" in kws else "(mkq (1) 100000000)"      # numpy's default atol = 1e-8
+        rt = "rtol_u" if "rtol" in kws else "rtol_default"              # numpy's default rtol = 1e-5
+        a0 = expr(node.args[0], env, {})
+        if ast.unparse(node.args[1]) == array:
+            return f"(isclose_x {a0} term {rt} {at})"
+        return f"(isclose_q {a0} {expr(node.args[1], env, {})} {rt} {at})"
+    raise TranslationError(f"unsupported mask: {src}")
+
+
+def translate_skeleton(target, fn):
+    items = flatten(fn.body)
+    pos = 0
+    defs = []
+
+    def cur():
+        if pos >= len(items):
+            raise TranslationError(f"{target['func']}: function ends early (skeleton expects more statements)")
+        return items[pos]
+    for sk in target["skeleton"]:
+        kind = sk[0]
+        if kind in ("with", "endwith"):
+            it = cur()
+            if it[0] != kind or (kind == "with" and it[1] != sk[1]):
+                raise TranslationError(f"{target['func']}: expected {sk}, found {it[0]} {ast.unparse(it[1])[:80] if it[0] == 'stmt' else (it[1:] or '')}")
+            pos += 1
+        elif kind == "text":
+            it = cur()
+            if it[0] != "stmt" or ast.unparse(it[1]) != sk[1]:
+                raise TranslationError(f"{target['func']}: expected `{sk[1]}`, found `{ast.unparse(it[1])[:120] if it[0] == 'stmt' else it}`")
+            pos += 1
+        elif kind == "raise_guard":     # if <cond>: raise ValueError(...)   (input validation; refusals are outside the model)
+            it = cur()
+            st = it[1] if it[0] == "stmt" else None
+            if not (isinstance(st, ast.If) and not st.orelse and len(st.body) == 1 and isinstance(st.body[0], ast.Raise)):
+                raise TranslationError(f"{target['func']}: expected an input-validation guard, found `{ast.unparse(st)[:100] if st is not None else it}`")
+            pos += 1
+        elif kind == "assign":
+            it = cur()
+            st = it[1] if it[0] == "stmt" else None
+            if not (isinstance(st, ast.Assign) and len(st.targets) == 1 and ast.unparse(st.targets[0]) == sk[1]):
+                raise TranslationError(f"{target['func']}: expected an assignment to {sk[1]}, found `{ast.unparse(st)[:100] if st is not None else it}`")
+            pos += 1
+        elif kind == "expr":
+            _, name, gname, args, atoms = sk
+            it = cur()
+            st = it[1] if it[0] == "stmt" else None
+            if not (isinstance(st, ast.Assign) and len(st.targets) == 1 and ast.unparse(st.targets[0]) == name):
+                raise TranslationError(f"{target['func']}: expected an assignment to {name}")
+            body = expr(st.value, {a: a for a in args}, atoms)
+            defs.append(f"Definition gen_{target['name']}_{gname} ({' '.join(args)} : Q) : Q :=\n  {body}.\n")
+            pos += 1
+        elif kind == "masks":
+            _, array, gname, args = sk
+            steps = []
+            while pos < len(items) and items[pos][0] == "stmt":
+                st = items[pos][1]
+                if not (isinstance(st, ast.Assign) and len(st.targets) == 1 and isinstance(st.targets[0], ast.Subscript)
+                        and ast.unparse(st.targets[0].value) == array):
+                    break
+                sl = st.targets[0].slice
+                if isinstance(sl, (ast.Constant, ast.UnaryOp, ast.Slice)) or ast.unparse(sl).startswith("np.cumsum"):
+                    break       # an index / the absorbing idiom, not a mask: must be matched by a `text` item
+                val = ast.unparse(st.value)
+                vals = {"0": "Fin 0", "1": "Fin 1", "np.inf": "PInf"}
+                if val not in vals:
+                    raise TranslationError(f"{target['func']}: unsupported mask value {val}")
+                steps.append((mask_expr(sl, {a: a for a in args}, array), vals[val]))
+                pos += 1
+            if not steps:
+                raise TranslationError(f"{target['func']}: no mask assignment to {array} where one is expected")
+            body = "\n".join(f"  let term := if {c} then {v} else term in" for c, v in steps) + "\n  term"
+            defs.append(f"Definition gen_{target['name']}_{gname} ({' '.join(args)} : Q) (term : Xq) : Xq :=\n{body}.\n"
+                        f"Definition gen_{target['name']}_{gname}_steps : nat := {len(steps)}.\n")
+        else:
+            raise TranslationError(f"bad skeleton item {sk}")
+    if pos != len(items):
+        it = items[pos]
+        raise TranslationError(f"{target['func']}: statement beyond the skeleton: `{ast.unparse(it[1])[:120] if it[0] == 'stmt' else it}`")
+    defs.append(f"Definition gen_{target['name']}_skeleton_matched : bool := true.\n")
+    return f"(* {target['file']}: {target['func']} (whole-function skeleton) *)\n" + "".join(defs)
+
+
 def translate(target, repo=None):
     repo = repo or C.REPO
     path = os.path.join(repo, target["file"])
-    tree = ast.parse(open(path).read())
+    import warnings
+    with warnings.catch_warnings():
+        warnings.simplefilter("ignore")
+        tree = ast.parse(open(path).read())
     fn = find_func(tree, target["func"])
+    if target.get("kind") == "skeleton":
+        return translate_skeleton(target, fn)
     if "result" in target:
         return translate_block(target, fn)
     env = dict(target["params"])
